@@ -151,6 +151,16 @@ pub(crate) fn execute_merge<S: GraphSnapshot>(
 pub trait WriteableGraph {
     fn create_node(&mut self, external_id: ExternalId, label_id: LabelId)
     -> Result<InternalNodeId>;
+    /// Creates a node whose external id is chosen by the store: `proposed`, or the next id
+    /// above every id ever assigned when `proposed` is not above them. The default keeps the
+    /// proposal (graphs without their own allocator).
+    fn create_node_auto_id(
+        &mut self,
+        proposed: ExternalId,
+        label_id: LabelId,
+    ) -> Result<InternalNodeId> {
+        self.create_node(proposed, label_id)
+    }
     fn add_node_label(&mut self, node: InternalNodeId, label_id: LabelId) -> Result<()>;
     fn remove_node_label(&mut self, node: InternalNodeId, label_id: LabelId) -> Result<()>;
     fn create_edge(
